@@ -393,6 +393,31 @@ def arc_flattening_kernels(arc_src: str, circle_src: str) -> list[tuple[str, str
     return [("arc", _stmts(_body(fa))), ("circle", _stmts(_body(fc)))]
 
 
+def path_linear_rules(src: str) -> list[tuple[str, str]]:
+    """the 'Bezier segment is a straight line -> LINE_TO' rules of add_bezier4p / add_bezier3p (path/tools.py)"""
+    tree = ast.parse(src)
+    out = []
+    for fname in ("add_bezier4p", "add_bezier3p"):
+        fn = _find_method(tree, None, fname)
+        loops = [s for s in _body(fn) if isinstance(s, ast.For)]
+        if len(loops) != 1:
+            raise Extract(f"{fname}: expected one loop over the curves")
+        ifs = [s for s in loops[0].body if isinstance(s, ast.If)]
+        rule = next((i for i in ifs if i.orelse and _u(i.body[0]).startswith("path.line_to(end)")), None)
+        if rule is None or not isinstance(rule.test, ast.BoolOp):
+            raise Extract(f"{fname}: linear segment rule not found")
+        consts = {t.targets[0].id: _u(t.value) for t in _body(fn) if isinstance(t, ast.Assign) and isinstance(t.targets[0], ast.Name)}
+        out += [
+            (fname + ".op", type(rule.test.op).__name__),
+            (fname + ".operands", "; ".join(_u(v) for v in rule.test.values)),
+            (fname + ".then", _stmts(rule.body)),
+            (fname + ".else", _stmts(rule.orelse)),
+            (fname + ".rel_tol", consts.get("rel_tol", "?")),
+            (fname + ".abs_tol", consts.get("abs_tol", "?")),
+        ]
+    return out
+
+
 def _pairs(name: str, doc: str, pairs) -> str:
     items = ",\n   ".join(f"({_lean_str(k)}, {_lean_str(v)})" for k, v in pairs)
     return f"/-- {doc} -/\ndef {name} : List (String × String) :=\n  [{items}]\n"
@@ -451,6 +476,7 @@ def pyxIscloseBody : String := {_lean_str(iso_txt)}
 {_pairs("bspline", "BSpline.flattening, math/bspline.py", kernel_py_rec(src["src/ezdxf/math/bspline.py"], "BSpline", "bspline"))}
 {_pairs("ellipse", "ConstructionEllipse.flattening, math/ellipse.py", kernel_py_rec(src["src/ezdxf/math/ellipse.py"], "ConstructionEllipse", "while"))}
 {_pairs("arcFlattening", "ConstructionArc.flattening / ConstructionCircle.flattening", arc_flattening_kernels(src["src/ezdxf/math/arc.py"], src["src/ezdxf/math/circle.py"]))}
+{_pairs("pathLinearRules", "add_bezier4p / add_bezier3p (path/tools.py): when a Bezier segment is stored as LINE_TO", path_linear_rules(src["src/ezdxf/path/tools.py"]))}
 
 /-- `distance_point_line_3d`, math/construct3d.py -/
 def distancePointLine3d : String := {_lean_str(distance_point_line_kernel(src["src/ezdxf/math/construct3d.py"]))}
@@ -1587,7 +1613,7 @@ def entity_cases(ctx, msp):
     N = 1000
     for i in range(ctx.n(300, 5000)):
         kind = rng.choice(["LINE", "CIRCLE", "ARC", "ARC", "ELLIPSE", "ELLIPSE", "SPLINE", "SPLINE", "LWPOLYLINE", "LWPOLYLINE",
-                           "POLYLINE2D", "POLYLINE3D", "HATCH-poly", "HATCH-edge"])
+                           "POLYLINE2D", "POLYLINE3D", "HATCH-poly", "HATCH-edge", "HATCH-spline-edge"])
         ext = _rand_extrusion(rng)
         ocs = OCS(ext)
         if kind == "LINE":
@@ -1647,9 +1673,19 @@ def entity_cases(ctx, msp):
             z = rng.random() < 0.5
             cps = [(rng.uniform(-20, 20), rng.uniform(-20, 20), rng.uniform(-20, 20) if z else 0.0) for _ in range(cnt)]
             weights = [rng.choice([0.5, 1.0, 2.0]) for _ in range(cnt)] if rng.random() < 0.2 else None
-            closed = rng.random() < 0.15
+            # control polygons with coincident control points: a doubled first / last control point of a cubic is a
+            # "retracted handle" (one of them does NOT make the Bezier segment a straight line), doubled inner points
+            shape = rng.choice(["rnd", "rnd", "rnd", "dbl-first", "dbl-last", "dbl-both", "dbl-inner", "dbl-first"])
+            closed = shape == "rnd" and rng.random() < 0.15
             if closed:
                 cps[-1] = cps[0]
+            if shape in ("dbl-first", "dbl-both"):
+                cps[1] = cps[0]
+            if shape in ("dbl-last", "dbl-both"):
+                cps[-2] = cps[-1]
+            if shape == "dbl-inner" and cnt > 3:
+                k = rng.randint(1, cnt - 3)
+                cps[k + 1] = cps[k]
             if weights:
                 e = msp.add_rational_spline(cps, weights, degree=deg)
             else:
@@ -1660,7 +1696,7 @@ def entity_cases(ctx, msp):
             samp = float(poly_dist(T2[1::2], T).max()) * 1.5  # error of the sampling polyline itself
             exact = deg == 3 and not weights
             size = _scale(*[c for p in cps for c in p])
-            yield f"SPLINE-deg{deg}" + ("-rational" if weights else "") + ("-closed" if closed else ""), e, T, \
+            yield f"SPLINE-deg{deg}" + ("-rational" if weights else "") + ("-closed" if closed else "") + ("" if shape == "rnd" else "-" + shape), e, T, \
                 (1e-9 * size if exact else 1e-1 * size) + samp, size, False, {"cps": cps, "degree": deg, "weights": weights}
         elif kind in ("LWPOLYLINE", "POLYLINE2D", "HATCH-poly"):
             n = rng.randint(2, 7)
@@ -1697,6 +1733,35 @@ def entity_cases(ctx, msp):
             e = msp.add_polyline3d(pts, close=closed)
             T = pts + ([pts[0]] if closed else [])
             yield kind, e, T, 1e-9, _scale(*[c for p in pts for c in p]), False, {"points": pts, "closed": closed}
+        elif kind == "HATCH-spline-edge":
+            # boundary = one cubic spline edge (clamped, explicit knots; doubled end control points included) closed by a line
+            from ezdxf.math import BSpline
+
+            elev = rng.choice([0.0, rng.uniform(-10, 10)])
+            cnt = rng.randint(4, 9)
+            c2 = [(rng.uniform(-20, 20), rng.uniform(-20, 20)) for _ in range(cnt)]
+            shape = rng.choice(["rnd", "dbl-first", "dbl-last", "dbl-inner", "dbl-first"])
+            if shape == "dbl-first":
+                c2[1] = c2[0]
+            elif shape == "dbl-last":
+                c2[-2] = c2[-1]
+            elif shape == "dbl-inner" and cnt > 4:
+                k = rng.randint(1, cnt - 3)
+                c2[k + 1] = c2[k]
+            knots = [0.0] * 4 + [float(k) for k in range(1, cnt - 3)] + [float(cnt - 3)] * 4
+            e = msp.add_hatch(dxfattribs={"elevation": (0, 0, elev), "extrusion": ext})
+            ep = e.paths.add_edge_path()
+            ep.add_spline(control_points=c2, knot_values=knots, degree=3)
+            ep.add_line(c2[-1], c2[0])
+            ref = BSpline([(x, y, elev) for x, y in c2], order=4, knots=knots)
+            T3 = [key3(p) for p in ref.approximate(2 * N)]
+            To = T3[::2]
+            samp = float(poly_dist(T3[1::2], To).max()) * 1.5
+            To = To + [(c2[0][0], c2[0][1], elev)]
+            T = [tuple(ocs.to_wcs(Vec3(p))) for p in To]
+            size = _scale(*[c for p in c2 for c in p], elev)
+            yield kind + ("" if shape == "rnd" else "-" + shape), e, T, 1e-9 * size + samp, size, False, \
+                {"spline-edge": c2, "knots": knots, "elevation": elev, "extrusion": list(ext)}
         else:  # HATCH-edge: rounded rectangle of 4 lines + 4 counter-clockwise arcs, or a full ellipse, in the OCS
             elev = rng.choice([0.0, rng.uniform(-10, 10)])
             e = msp.add_hatch(dxfattribs={"elevation": (0, 0, elev), "extrusion": ext})
@@ -1845,13 +1910,24 @@ def random_paths(ctx, rng, planar: bool):
     for _ in range(rng.choice([1, 1, 2, 3])):
         p = Path(pnt())
         for _ in range(rng.randint(1, 6)):
-            c = rng.choice(["l", "l", "c3", "c4", "c4"])
+            c = rng.choice(["l", "l", "c3", "c4", "c4", "c4-r1", "c4-r2", "c4-both", "c3-r"])
+            cur = tuple(p.end)
             if c == "l":
                 p.line_to(pnt())
             elif c == "c3":
                 p.curve3_to(pnt(), pnt())
-            else:
+            elif c == "c4":
                 p.curve4_to(pnt(), pnt(), pnt())
+            elif c == "c4-r1":  # retracted first handle: ctrl1 == start (still a curve)
+                p.curve4_to(pnt(), cur, pnt())
+            elif c == "c4-r2":  # retracted second handle: ctrl2 == end (still a curve)
+                e_ = pnt()
+                p.curve4_to(e_, pnt(), e_)
+            elif c == "c4-both":  # both handles retracted: a straight line stored as a cubic
+                e_ = pnt()
+                p.curve4_to(e_, cur, e_)
+            else:  # quadratic with the control point on the start point: a straight line
+                p.curve3_to(pnt(), cur)
         if rng.random() < 0.4:
             p.close()
         paths.append(p)
